@@ -57,6 +57,7 @@ type Exec struct {
 	wsCache    map[*ssa.Function]*WriteSet
 	precallSeen map[string]bool
 	loopOfPos  map[token.Pos]int
+	invUnbound bool // set by evalInvariant when the clause could not be evaluated
 	iterPrefix map[string]*Term
 	arrayFam   map[string]int
 }
@@ -1830,7 +1831,11 @@ func (ex *Exec) canUnroll(fr *Frame, lp *Loop, st *State) bool {
 
 func (ex *Exec) checkInvariants(fr *Frame, lp *Loop, st *State, phase string) {
 	for _, iv := range ex.invariantsFor(fr, lp) {
+		ex.invUnbound = false
 		c := ex.evalInvariant(fr, lp, iv, st)
+		if ex.invUnbound {
+			c = False
+		}
 		if os.Getenv("ICSVC_DEBUG_INV") != "" && ex.specMode == 0 && iv.Label == os.Getenv("ICSVC_DEBUG_INV") {
 			w := ""
 			for id, ww := range st.worlds {
@@ -1860,7 +1865,11 @@ func (ex *Exec) checkSteps(fr *Frame, lp *Loop, st *State) {
 		return
 	}
 	for _, sc := range ct.Loops[lp.ordinal].Steps {
+		ex.invUnbound = false
 		c := ex.evalInvariant(fr, lp, sc, st)
+		if ex.invUnbound {
+			c = False
+		}
 		name := fmt.Sprintf("%s#loop%d.step", ex.obPrefixFor(fr), lp.ordinal)
 		if sc.Label != "" {
 			name += ":" + sc.Label
